@@ -184,6 +184,7 @@ Section Sim.
   Notation load_reps := (load_reps B enc dec).
   Notation load_sets := (load_sets B enc dec).
   Notation load_asset := (load_asset B enc dec).
+  Notation load_mpd := (load_mpd B enc dec).
   Notation load_all := (load_all B enc dec).
   Notation discover := (discover B enc dec).
 
@@ -337,15 +338,14 @@ Section Sim.
 
   Definition mpd_good (c : cache B) (e : string * string * mpd_obs) : Prop :=
     match e with
-    | (apath, _, MOk sets) => sets_good apath c sets
-    | _ => True
+    | (apath, _, o) => match mpd_sets o with Some sets => sets_good apath c sets | None => True end
     end.
 
-  Lemma load_asset_sim apath name o c c0 a a' :
-    asset_sim a a' -> mpd_good c (apath, name, o) ->
-    lstate_rel c c0 (load_asset mode_read apath name o a c) (load_asset mode_scan apath name o a' c0).
+  Lemma load_mpd_sim apath name sets c c0 a a' :
+    asset_sim a a' -> sets_good apath c sets ->
+    lstate_rel c c0 (load_mpd mode_read apath name sets a c) (load_mpd mode_scan apath name sets a' c0).
   Proof.
-    intros Ha Hg. destruct o as [| |sets0|sets]; cbn [Cache.load_asset]; try (cbn; auto; fail).
+    intros Ha Hg. unfold Cache.load_mpd.
     set (a1 := {| a_mpds := a_mpds a ++ [name]; a_reps := a_reps a; a_segdur := a_segdur a; a_loop := a_loop a; a_ref := a_ref a |}).
     set (a1' := {| a_mpds := a_mpds a' ++ [name]; a_reps := a_reps a'; a_segdur := a_segdur a'; a_loop := a_loop a'; a_ref := a_ref a' |}).
     assert (Ha1 : asset_sim a1 a1').
@@ -354,6 +354,14 @@ Section Sim.
     destruct (load_sets mode_read apath sets a1 c) as [[[x1 c1] e1]| |],
              (load_sets mode_scan apath sets a1' c0) as [[[x2 c2] e2]| |]; cbn [lstate_rel bind] in *; try contradiction; auto.
     destruct Hr as (Hx & -> & -> & ->). destruct e2; (split; [assumption|auto]).
+  Qed.
+
+  Lemma load_asset_sim apath name o c c0 a a' :
+    asset_sim a a' -> mpd_good c (apath, name, o) ->
+    lstate_rel c c0 (load_asset mode_read apath name o a c) (load_asset mode_scan apath name o a' c0).
+  Proof.
+    intros Ha Hg. destruct o as [| |sets|sets|sets]; cbn [Cache.load_asset]; try (cbn; auto; fail);
+      apply load_mpd_sim; assumption.
   Qed.
 
   (** ** discoverAssets *)
@@ -421,6 +429,7 @@ Section TwoRuns.
   Notation load_reps := (load_reps B enc dec).
   Notation load_sets := (load_sets B enc dec).
   Notation load_asset := (load_asset B enc dec).
+  Notation load_mpd := (load_mpd B enc dec).
   Notation load_all := (load_all B enc dec).
   Notation discover := (discover B enc dec).
 
@@ -491,9 +500,21 @@ Section TwoRuns.
 
   Definition mpd_occ (e : string * string * mpd_obs) : Prop :=
     match e with
-    | (apath, _, MOk sets) => sets_occ apath sets
-    | _ => True
+    | (apath, _, o) => match mpd_sets o with Some sets => sets_occ apath sets | None => True end
     end.
+
+  Lemma load_mpd_two apath name sets a ci di :
+    sets_occ apath sets -> CR ci di ->
+    two_rel (load_mpd md1 apath name sets a ci) (load_mpd md2 apath name sets a di).
+  Proof.
+    intros Ho Hc. unfold Cache.load_mpd.
+    match goal with |- two_rel (do r <- load_sets md1 apath sets ?A1 ci; _) _ =>
+      pose proof (load_sets_two apath sets A1 ci di Ho Hc) as Hs;
+      destruct (load_sets md1 apath sets A1 ci) as [[[x1 c1] e1]| |],
+               (load_sets md2 apath sets A1 di) as [[[x2 c2] e2]| |]; cbn [two_rel bind] in *; try contradiction; auto
+    end.
+    destruct Hs as (-> & -> & Hc12). repeat split; auto.
+  Qed.
 
   Definition two_all_rel (x y : res (list (string * asset) * cache B)) : Prop :=
     match x, y with
@@ -512,13 +533,7 @@ Section TwoRuns.
     - inversion Ho as [|? ? Ho1 Ho2]; subst.
       set (a := match lookup apath assets with Some a => a | None => empty_asset end).
       assert (Hr : two_rel (load_asset md1 apath name o a ci) (load_asset md2 apath name o a di)).
-      { destruct o as [| |sets0|sets]; cbn [Cache.load_asset]; try (cbn; auto; fail).
-        match goal with |- two_rel (do r <- load_sets md1 apath sets ?A1 ci; _) _ =>
-          pose proof (load_sets_two apath sets A1 ci di Ho1 Hc) as Hs;
-          destruct (load_sets md1 apath sets A1 ci) as [[[x1 c1] e1]| |],
-                   (load_sets md2 apath sets A1 di) as [[[x2 c2] e2]| |]; cbn [two_rel bind] in *; try contradiction; auto
-        end.
-        destruct Hs as (-> & -> & Hc12). repeat split; auto. }
+      { destruct o as [| |sets|sets|sets]; cbn [Cache.load_asset]; try (cbn; auto; fail); apply load_mpd_two; assumption. }
       destruct (load_asset md1 apath name o a ci) as [[[a1 c1] e1]| |],
                (load_asset md2 apath name o a di) as [[[a2 c2] e2]| |]; cbn [two_rel bind two_all_rel] in *; try contradiction; auto.
       destruct Hr as (-> & _ & Hc12). apply IH; assumption.
@@ -544,7 +559,7 @@ Section WriteMode.
   Notation discover := (discover B enc dec).
 
   Lemma mpd_occ_true l : Forall (mpd_occ (fun _ _ => True)) l.
-  Proof. apply Forall_forall. intros [[a n] o] _. destruct o; cbn; auto. intros s _ b m _. exact I. Qed.
+  Proof. apply Forall_forall. intros [[a n] o] _. destruct o; cbn; auto; intros s _ b m _; exact I. Qed.
 
   (** Write mode serves exactly what scan mode serves (same assets, same outcome). *)
   Theorem write_eq_scan l c c0 :
@@ -600,9 +615,8 @@ Section WriteMode.
     cache_good B enc dec c l.
   Proof.
     intros Hcons Hg Hts. unfold cache_good, consistent in *. rewrite Forall_forall in *. intros [[apath name] o] Hin.
-    specialize (Hcons _ Hin). specialize (Hts _ Hin). destruct o as [| |sets0|sets]; cbn in *; auto.
-    intros s Hs b m Hm. split; [|eapply Hts; eauto]. rewrite (Hcons s Hs b m Hm) at 1.
-    apply Hg.
+    specialize (Hcons _ Hin). specialize (Hts _ Hin). destruct o as [| |sets|sets|sets]; cbn in *; auto;
+      (intros s Hs b m Hm; split; [|eapply Hts; eauto]; rewrite (Hcons s Hs b m Hm) at 1; apply Hg).
   Qed.
 
 End WriteMode.
